@@ -657,6 +657,40 @@ func (o op) describe() string {
 	}
 }
 
+// OnSpin, when set, is called (and must not return) when a thread of the run has been computing for 120 s
+// without reaching any hook and the goroutine dump shows it running inside repository code: the library
+// spins (a loop that never ends), which is a finding about the library, not a harness fault.
+var OnSpin func(frame string)
+
+// spinningRepoFrame returns the innermost repository function of a goroutine that is running or runnable
+// (not blocked) with repository code on top of its stack, "" if there is none.
+func spinningRepoFrame(dump string) string {
+	for _, g := range strings.Split(dump, "\n\n") {
+		lines := strings.Split(g, "\n")
+		if len(lines) < 2 || !(strings.Contains(lines[0], "[running]") || strings.Contains(lines[0], "[runnable]")) {
+			continue
+		}
+		for _, l := range lines[1:] {
+			if strings.HasPrefix(l, "\t") || strings.HasPrefix(l, "created by") {
+				continue
+			}
+			if strings.HasPrefix(l, "github.com/xelaj/mtproto") && !strings.Contains(l, "/zverif/") {
+				f := l
+				if i := strings.LastIndexByte(f, '('); i > 0 {
+					f = f[:i]
+				}
+				return strings.TrimPrefix(f, "github.com/xelaj/mtproto/")
+			}
+			if strings.HasPrefix(l, "math/") || strings.HasPrefix(l, "runtime.") || strings.HasPrefix(l, "crypto/") ||
+				strings.Contains(l, "/zverif/vrand.") || strings.Contains(l, "/zverif/vcrand.") || strings.Contains(l, "/zverif/vclock.") {
+				continue // arithmetic, random draws or clock readings made by the spinning loop
+			}
+			break // the goroutine runs something else (harness, scheduler)
+		}
+	}
+	return ""
+}
+
 func (s *S) waitIdle() {
 	select {
 	case <-s.idle:
@@ -674,6 +708,9 @@ func (s *S) waitIdle() {
 	case <-s.watchdog.C:
 		buf := make([]byte, 1<<20)
 		n := runtime.Stack(buf, true)
+		if fr := spinningRepoFrame(string(buf[:n])); fr != "" && OnSpin != nil {
+			OnSpin(fr) // does not return
+		}
 		fmt.Fprintf(os.Stderr, "HARNESS-ERROR: a thread blocked outside the scheduler's hooks for 120s\n%s\n", buf[:n])
 		os.Exit(2)
 	}
